@@ -64,12 +64,19 @@ PrimitiveMatrixReq(Mn, den, T, D) ==
 
 (* get_primitive_matrix(pmat): what the argument means.  A matrix is a primitive matrix only if it   *)
 (* keeps the handedness and does not enlarge the cell: 0 < det <= 1.                                  *)
-PMatKinds == {"letter", "auto", "none", "matrix", "flat9", "flat8", "word"}
+PMatKinds == {"letter", "auto", "none", "matrix", "flat9", "flat8", "word", "words9"}
 DetClasses == {"negative", "zero", "fraction", "one", "two"}
 PMatReq(kind, dc) == CASE kind = "letter" -> "matrix" [] kind = "auto" -> "auto" [] kind = "none" -> "none"
                        [] kind \in {"matrix", "flat9"} -> IF dc \in {"fraction", "one"} THEN "matrix" ELSE "error"
                        [] OTHER -> "error"
 PMatTable == {<<k, d, PMatReq(k, d)>> : k \in PMatKinds, d \in DetClasses}
+(* shape_supercell_matrix(smat): None is the identity, three numbers a diagonal, nine numbers a matrix *)
+ShapeKinds == {"none", "three", "nine", "matrix", "two", "four"}
+ShapeReq(kind, v) == CASE kind = "none" -> Id3
+                       [] kind = "three" -> Diag(v[1], v[2], v[3])
+                       [] kind \in {"nine", "matrix"} -> <<<<v[1], v[2], v[3]>>, <<v[4], v[5], v[6]>>, <<v[7], v[8], v[9]>>>>
+                       [] OTHER -> "error"
+ShapeTable == {<<k, v, ShapeReq(k, v)>> : k \in ShapeKinds, v \in {<<2, 3, 4, -1, 0, 1, 5, 0, 2>>, <<1, 1, 2, 0, 3, 0, 0, -2, 1>>}}
 
 -----------------------------------------------------------------------------
 (* 2. Diagonal supercell estimate ("closest to a sphere under keeping the     *)
@@ -196,6 +203,11 @@ CloseAnyOrder(D, a, b) == a.lat = b.lat /\ Len(a.atoms) = Len(b.atoms) /\ AtomSe
 (* for each atom of b its index in a (1-based) *)
 OrderOf(D, a, b) == [i \in DOMAIN b.atoms |-> CHOOSE j \in DOMAIN a.atoms : PosKey(D, a.atoms[j].num) = PosKey(D, b.atoms[i].num)]
 
+(* convert_to_phonopy_primitive(supercell built from a, b): b is turned into a Primitive iff it is the  *)
+(* primitive cell of that supercell; a cell that is not the same crystal must be refused, a permuted    *)
+(* one may be.  An accepted result is b itself (same order) with maps into the supercell.               *)
+ConvertReq(D, a, b) == IF CloseOrdered(D, a, b) THEN {"ok"} ELSE IF CloseAnyOrder(D, a, b) THEN {"ok", "refused"} ELSE {"refused"}
+
 (* Tolerance (documented: "atol: tolerance in Cartesian distance"): one atom of b is displaced by a    *)
 (* distance of class  zero: 0,  below: < atol,  between: atol < d < sqrt(atol) (d < 1),  above: > sqrt(atol). *)
 (* The verdict depends on the distance only, not on the mode.                                             *)
@@ -207,6 +219,16 @@ TolReq(cls) == cls \in {"zero", "below"}
 (* cell iff the only pure translation in it is the identity.                  *)
 CountIdentity(rots) == Cardinality({k \in DOMAIN rots : Tup(rots[k][1]) = <<1,0,0>> /\ Tup(rots[k][2]) = <<0,1,0>> /\ Tup(rots[k][3]) = <<0,0,1>>})
 IsPrimitiveList(rots) == CountIdentity(rots) = 1
+
+(* 7. yaml text of a cell (PhonopyAtoms.__str__ -> yaml -> parse_cell_dict).  Every number is printed   *)
+(* with a fixed number of decimals, at least YamlDecimals of them; reading the text back gives the     *)
+(* number within half a unit of the last printed decimal (plus one unit in the last place of a double). *)
+(* err and ulp are in units of 10^-(printed + 3), rounded up.                                           *)
+YamlDecimals == [lattice |-> 15, coordinates |-> 15, mass |-> 6, magnetic_moment |-> 8]
+YamlFailed(field, shown, err, ulp, same) ==
+  (IF shown >= YamlDecimals[field] THEN {} ELSE {"precision:" \o field})
+  \cup (IF err <= 500 + ulp THEN {} ELSE {"round-trip:" \o field})
+  \cup (IF same THEN {} ELSE {"symbols"})
 
 (* 6. Cell parameters: squared lengths and scalar products are the Gram entries *)
 ParamsReq(G, l2, c23, c13, c12) == Tup(l2) = <<G[1][1], G[2][2], G[3][3]>> /\ c23 = G[2][3] /\ c13 = G[1][3] /\ c12 = G[1][2]
